@@ -196,3 +196,127 @@ example :
   decide +kernel
 
 end DV.C04
+
+namespace DV.C04
+open DV.Refine
+
+/-! ### promotion of the candidate and wrapping of the position -/
+
+/-- **A width that is set — even a sharp interface, width 0 — is what the fit starts from**;
+only an unset width is replaced by the grid's typical discretisation. -/
+theorem promote_width {α : Type} (dx : α) (c : Cand α) :
+    (promote dx c)[c.pos.length + 1]? = some (match c.width with | some w => w | none => dx) := by
+  unfold promote
+  cases c.width <;> simp
+
+theorem promote_position {α : Type} (dx : α) (c : Cand α) : (promote dx c).take c.pos.length = c.pos := by
+  unfold promote; simp
+
+theorem promote_radius {α : Type} (dx : α) (c : Cand α) : (promote dx c)[c.pos.length]? = some c.radius := by
+  unfold promote; simp
+
+theorem promote_amps {α : Type} (dx : α) (c : Cand α) : (promote dx c).drop (c.pos.length + 2) = c.amps := by
+  unfold promote; simp
+
+/-- **Wrapping puts a coordinate into `[lo, lo + len)`** and moves it by a whole number of periods -/
+theorem wrap1_in_box (lo len x : ℚ) (h : 0 < len) :
+    lo ≤ wrap1 lo len x ∧ wrap1 lo len x < lo + len ∧ ∃ k : ℤ, wrap1 lo len x = x - k * len := by
+  unfold wrap1
+  simp only [HasFloor.floor]
+  set q := (x - lo) / len with hq
+  have h1 : ((q.floor : ℤ) : ℚ) ≤ q := Rat.floor_le q
+  have h2 : q < ((q.floor + 1 : ℤ) : ℚ) := Rat.lt_floor_add_one q
+  push_cast at h2
+  have hx : x - lo = q * len := by rw [hq]; field_simp
+  refine ⟨?_, ?_, ⟨q.floor, by ring⟩⟩
+  · have : 0 ≤ (q - (q.floor : ℚ)) * len := mul_nonneg (by linarith) h.le
+    nlinarith
+  · have : (q - (q.floor : ℚ)) * len < 1 * len := mul_lt_mul_of_pos_right (by linarith) h
+    nlinarith
+
+/-- a coordinate that already lies in the box is not moved -/
+theorem wrap1_id (lo len x : ℚ) (h : 0 < len) (h1 : lo ≤ x) (h2 : x < lo + len) : wrap1 lo len x = x := by
+  unfold wrap1
+  simp only [HasFloor.floor]
+  have hfl : ((x - lo) / len).floor = 0 := by
+    have a : (0 : ℚ) ≤ (x - lo) / len := div_nonneg (by linarith) h.le
+    have b : (x - lo) / len < 1 := by rw [div_lt_one h]; linarith
+    have c1 : (0 : ℤ) ≤ ((x - lo) / len).floor := Rat.le_floor_iff.mpr (by simpa using a)
+    have c2 : ((x - lo) / len).floor < 1 := by
+      by_contra hge
+      have : (1 : ℤ) ≤ ((x - lo) / len).floor := by omega
+      have := Rat.le_floor_iff.mp this
+      simp at this
+      linarith
+    omega
+  rw [hfl]; simp
+
+/-- **After `refine_droplet` the position lies inside the box along every periodic axis** and is
+unchanged along the others -/
+theorem wrapPos_spec : ∀ (axes : List (Option (ℚ × ℚ))) (pos : List ℚ),
+    (wrapPos axes pos).length = pos.length ∧
+    ∀ i (hi : i < pos.length), ∀ hi' : i < (wrapPos axes pos).length,
+      match axes[i]? with
+      | some (some (lo, len)) => 0 < len → lo ≤ (wrapPos axes pos)[i] ∧ (wrapPos axes pos)[i] < lo + len ∧
+          ∃ k : ℤ, (wrapPos axes pos)[i] = pos[i] - k * len
+      | _ => (wrapPos axes pos)[i] = pos[i]
+  | [], pos => by
+    constructor
+    · cases pos <;> simp [wrapPos]
+    · intro i hi hi'
+      cases pos <;> simp [wrapPos]
+  | _ :: _, [] => by simp [wrapPos]
+  | none :: axes, x :: xs => by
+    obtain ⟨ih1, ih2⟩ := wrapPos_spec axes xs
+    constructor
+    · simp [wrapPos, ih1]
+    · intro i hi hi'
+      cases i with
+      | zero => simp [wrapPos]
+      | succ i =>
+        have := ih2 i (by simpa using hi) (by simpa [wrapPos] using hi')
+        simpa [wrapPos] using this
+  | some (lo, len) :: axes, x :: xs => by
+    obtain ⟨ih1, ih2⟩ := wrapPos_spec axes xs
+    constructor
+    · simp [wrapPos, ih1]
+    · intro i hi hi'
+      cases i with
+      | zero =>
+        simp only [List.getElem?_cons_zero, wrapPos, List.getElem_cons_zero]
+        intro h
+        exact wrap1_in_box lo len x h
+      | succ i =>
+        have := ih2 i (by simpa using hi) (by simpa [wrapPos] using hi')
+        simpa [wrapPos] using this
+
+/-- the wrap only touches the position: radius, width and amplitudes of the returned record are the
+solver's answer scattered into the promoted record -/
+theorem refineResult_tail (L : Layout) (constraints : List Nat) (axes : List (Option (ℚ × ℚ))) (dx : ℚ)
+    (c : Cand ℚ) (x : List ℚ) (adjust : Bool) :
+    (refineResult L constraints axes dx c x adjust).drop L.dim =
+      (finish L constraints (promote dx c) x adjust).drop L.dim := by
+  unfold refineResult
+  simp only
+  set out := finish L constraints (promote dx c) x adjust
+  have hl : (wrapPos axes (out.take L.dim)).length = (out.take L.dim).length := (wrapPos_spec axes _).1
+  set w := wrapPos axes (out.take L.dim) with hw
+  by_cases h : L.dim ≤ out.length
+  · have hwl : w.length = L.dim := by rw [hl]; simp [h]
+    rw [List.drop_append_of_le_length (by omega)]
+    have : w.drop L.dim = [] := List.drop_eq_nil_of_le (by omega)
+    rw [this, List.nil_append]
+  · have h' : out.length < L.dim := by omega
+    have h1 : out.drop L.dim = [] := List.drop_eq_nil_of_le (by omega)
+    have hwl : w.length ≤ L.dim := by rw [hl, List.length_take]; omega
+    rw [h1, List.append_nil, List.drop_eq_nil_of_le hwl]
+
+/-- non-vacuity / regression values: a sharp candidate keeps width 0; a candidate at x = −0.3 on the
+periodic box [0, 16) is returned at 15.7; the non-periodic y coordinate is kept -/
+example :
+    promote (1 : ℚ) ⟨[3, 4], 2, some 0, []⟩ = [3, 4, 2, 0] ∧
+    promote (1 : ℚ) ⟨[3, 4], 2, none, []⟩ = [3, 4, 2, 1] ∧
+    refineResult (α := ℚ) ⟨2, 0⟩ [] [some (0, 16), none] 1 ⟨[-3/10, 20], 2, some 1, []⟩ [-3/10, 20, 2, 1] false
+      = [157/10, 20, 2, 1] := by decide +kernel
+
+end DV.C04
